@@ -100,6 +100,12 @@ class GotranPythonCodePrinter(PythonCodePrinter):
             value = f"numpy.logical_and({value}, {arg})"
         return value
 
+    def _print_Mod(self, expr):
+        # `%` binds exactly like `*` and `/`. sympy's printer leaves a divisor
+        # such as 1/a unparenthesised: `x % 1/a` is `(x % 1)/a` in Python
+        num, den = (self._print(arg) for arg in expr.args)
+        return f"(({num}) % ({den}))"
+
     def _print_Not(self, expr):
         # Python's `not` needs a single truth value; stay elementwise
         return f"numpy.logical_not({self._print(expr.args[0])})"
